@@ -128,6 +128,21 @@ def build(pool=None, tag='core', shards=16, force=False):
                         'calls': '\n'.join('  RegisterShard%d(reg);\n  FungRows%d(fung);' % (k, k) for k in range(nsh))})
     files.append(os.path.join(out, 'main.cpp'))
     prim_src = os.path.join(VERIF, 'harness', 'prim.cpp')
+    # names hashed at compile time (C18): every length residue mod 8, long names, non-ASCII bytes
+    import random as _r
+    rr = _r.Random(20260930)
+    sipnames = [b'', b'a', b'Verif.TableA', b'caf\xc3\xa9.Table', b'io.github.eieio.example.MyInterface', b'Add', b'\xff\x80\x7f']
+    for n in list(range(0, 40)) + [63, 64, 65, 127, 128, 255, 256, 257, 300]:
+        sipnames.append(bytes(rr.choice([rr.randrange(1, 128), rr.randrange(128, 256)]) for _ in range(n)))
+    with open(os.path.join(out, 'sip_names.h'), 'w') as f:
+        f.write('// generated: names hashed at compile time\nstruct SipName { const char* hex; std::uint64_t table, iface, sel64; std::uint32_t sel32; };\n')
+        f.write('static const SipName kSipNames[] = {\n')
+        for nm in sipnames:
+            lit = '"' + ''.join('\\x%02x""' % c for c in nm) + '"'
+            f.write('  {"%s", nop::SipHash::Compute(%s, nop::kNopTableKey0, nop::kNopTableKey1), nop::SipHash::Compute(%s, nop::kNopInterfaceKey0, nop::kNopInterfaceKey1),\n'
+                    '   nop::ComputeMethodSelector<std::uint64_t>(%s, 0x1234567890abcdefULL), nop::ComputeMethodSelector<std::uint32_t>(%s, 0x1234567890abcdefULL)},\n'
+                    % (nm.hex() or '-', lit, lit, lit, lit))
+        f.write('};\n')
 
     def cc(p):
         o = p[:-4] + '.o'
